@@ -9,8 +9,8 @@ correspondence alone and under correspondence + search, and lists the anchored f
 are modelled (or not) without any run-time tie in this run.
 
 Nothing here decides anything: it is a measurement of the tie, written into evidence/<id>.json under
-coverage.impl_line_coverage.  Work done in sub-processes (the sharded schedules of C08/C10) is not seen and is reported as
-such.  Python < 3.12 (no sys.monitoring): the measurement is skipped and says so."""
+coverage.impl_line_coverage.  Forked children (the sharded schedules and reference runs of C08/C09/C10) append what they hit
+to a scratch file that the parent merges; other sub-processes are not seen.  Python < 3.12 (no sys.monitoring): the measurement is skipped and says so."""
 import ast
 import json
 import os
@@ -37,6 +37,21 @@ def start(repo):
     _state['pkg'] = pkg
     DISABLE = mon.DISABLE
     cache = {}
+    # forked children (the reference runs and schedule shards of C08 / C09 / C10) inherit the measurement; what they hit
+    # is appended to a file of their own in a scratch directory that the parent merges in report()
+    import tempfile
+    spool = _state['spool'] = tempfile.mkdtemp(prefix='implcov_', dir=os.environ.get('VERIF_TMP') or None)
+    child = _state['child'] = [None]
+
+    def in_child():
+        try:
+            child[0] = os.open(os.path.join(spool, f'{os.getpid()}.hits'), os.O_WRONLY | os.O_CREAT | os.O_APPEND, 0o600)
+        except OSError:
+            child[0] = None
+    if not _state.get('fork_hook'):
+        os.register_at_fork(after_in_child=lambda: _state.get('child_hook', lambda: None)())
+        _state['fork_hook'] = True
+    _state['child_hook'] = in_child
 
     def on_line(code, lineno):
         fn = code.co_filename
@@ -48,6 +63,12 @@ def start(repo):
                 ok = cache[fn] = False
         if ok:
             hit.add((fn, lineno))
+            fd = child[0]
+            if fd is not None:
+                try:
+                    os.write(fd, f'{fn}\t{lineno}\n'.encode())
+                except OSError:
+                    pass
         return DISABLE
 
     mon.register_callback(TOOL, mon.events.LINE, on_line)
@@ -70,6 +91,23 @@ def stop():
     mon.register_callback(TOOL, mon.events.LINE, None)
     mon.free_tool_id(TOOL)
     _state['on'] = False
+    _state['child_hook'] = lambda: None
+    # merge what forked children recorded
+    spool = _state.get('spool')
+    n_children = 0
+    if spool and os.path.isdir(spool):
+        for f in os.listdir(spool):
+            n_children += 1
+            try:
+                for ln in open(os.path.join(spool, f), errors='replace'):
+                    fn, _, no = ln.rstrip('\n').rpartition('\t')
+                    if fn and no.isdigit():
+                        _state['hit'].add((fn, int(no)))
+            except OSError:
+                pass
+        import shutil
+        shutil.rmtree(spool, ignore_errors=True)
+    _state['children'] = n_children
 
 
 def _functions(path):
@@ -205,7 +243,9 @@ def report(pid, repo, verif, anchors):
     return dict(
         measured=True,
         method='sys.monitoring LINE events on /repo/ombott while stages 3 and 4 run the real code in this process '
-               '(work in sub-processes is not seen); executable lines = line table of each function body',
+               '(forked children - reference runs, schedule shards - report what they hit through a scratch file; other '
+               'sub-processes are not seen); executable lines = line table of each function body',
+        forked_children_merged=_state.get('children', 0),
         files=files,
         anchored_lines=tot_ex,
         anchored_lines_ran_corr=sum(v['ran_under_correspondence'] for v in files.values()),
